@@ -495,7 +495,8 @@ MANIFEST = {
     "constant agreement checks, AST/path analysis of the look-ahead iterator",
     "level_text": "Static, every struct and every field: decides that a codec exists in both directions for every declared field type, that "
     "sequence fields have struct elements (the codec cannot carry packed scalars), that decode is a function of the type byte, "
-    "that encoder/decoder constants, separators, order and scalar widths agree, and the iterator's byte accounting. Round-trip "
+    "that encoder/decoder constants, separators, order and scalar widths agree, the iterator's byte accounting, and that struct-valued "
+    "characteristic access decodes the whole stored payload unconditionally. Round-trip "
     "equality as values is not decided; these are necessary conditions whose violation breaks it.",
     "level_note": "Trusted: dataclasses.fields order, struct/int conversions. Known findings: Sequence[u16] linked-service fields (BLE, CoAP) and "
     "the duplicate TLV types 128/129 in Meshcop.",
